@@ -88,6 +88,9 @@ type DrawParams struct {
 	// Anonymous: now and then P&T compositions start with anonymous templates
 	// and are migrated to named ones later.
 	Anonymous bool
+	// NameGames: now and then the first step gives resources of different kinds
+	// one explicit name, or builds an entry as a copy of an observed resource.
+	NameGames bool
 	// RepeatedResults: now and then a step warns with the very text the next
 	// step's fatal result will carry (a later step escalating an earlier warning).
 	RepeatedResults bool
@@ -158,6 +161,14 @@ func Draw(t *sim.Tape, p DrawParams) *Workload {
 		}
 		if p.Fatal && p.RepeatedResults && t.Next(3) == 0 {
 			st.Ops = append(st.Ops, simfn.Op{"op": "result", "severity": "warning", "message": fmt.Sprintf("scripted fatal at s%d", i+t.Next(2))})
+		}
+		if p.NameGames && i == 0 {
+			switch t.Next(6) {
+			case 0:
+				st.Ops = append(st.Ops, simfn.Op{"op": "sharedName"})
+			case 1:
+				st.Ops = append(st.Ops, simfn.Op{"op": "copyObserved", "from": "a", "to": "replica"})
+			}
 		}
 		if p.Fatal {
 			st.Ops = append(st.Ops, simfn.Op{"op": "fatalIf", "field": "spec.fatalStep", "equals": st.Name})
